@@ -557,11 +557,12 @@ def inline_reaching(cfg: CFG, at: ast.AST, expr: ast.AST, depth: int = 0, compre
                 return node
             # a container mutated in place between its definition and the use is not its defining expression any more
             d = next(iter(defs))
-            between = cfg.reach([d], avoid=[here])
+            # (any path from the definition to the use that does not run the definition again, loops included)
+            between = cfg.reach([d], avoid=[d])
             for nid in between:
                 other = cfg.nodes[nid].ast
                 if other is not None and nid != d and cfg.nodes[nid].kind != "test" and node.id in mutated_names(other) \
-                        and here in cfg.reach([nid]):
+                        and here in cfg.reach([nid], avoid=[d]):
                     return node
             return inline_reaching(cfg, stmt, value, depth + 1, frozenset(self.bound), keep, max_depth)
     return ast.fix_missing_locations(Inliner().visit(clone(expr)))
@@ -734,9 +735,9 @@ def key_function(repo, rel: str, func: Optional[ast.AST], key: ast.AST) -> Optio
     return None
 
 
-_NEG = {"<": ">=", "<=": ">", ">": "<=", ">=": "<", "==": "!=", "!=": "=="}
-_FLIP = {"<": ">", "<=": ">=", ">": "<", ">=": "<=", "==": "==", "!=": "!="}
-_OPS = {ast.Lt: "<", ast.LtE: "<=", ast.Gt: ">", ast.GtE: ">=", ast.Eq: "==", ast.NotEq: "!="}
+_NEG = {"<": ">=", "<=": ">", ">": "<=", ">=": "<", "==": "!=", "!=": "==", "in": "not in", "not in": "in"}
+_FLIP = {"<": ">", "<=": ">=", ">": "<", ">=": "<=", "==": "==", "!=": "!=", "in": "contains", "not in": "lacks"}
+_OPS = {ast.Lt: "<", ast.LtE: "<=", ast.Gt: ">", ast.GtE: ">=", ast.Eq: "==", ast.NotEq: "!=", ast.In: "in", ast.NotIn: "not in"}
 
 
 def effective_compare(expr: ast.AST, truth: bool = True) -> Optional[Tuple[ast.AST, str, ast.AST]]:
@@ -759,3 +760,35 @@ def oriented(compare: Tuple[ast.AST, str, ast.AST], is_subject) -> Optional[Tupl
     if a == b:
         return None
     return (left, op, right) if a else (right, _FLIP[op], left)
+
+
+def compares_at(cfg: CFG, node: ast.AST, keep: Set[str] = frozenset(), fresh_only: bool = False,
+                within: Optional[ast.AST] = None) -> List[Tuple[ast.AST, str, ast.AST]]:
+    """ the two-operand comparisons among the path facts of `node`, each as (left, op, right) as it holds at the node,
+        locals resolved through their reaching definitions; `within` restricts to tests inside that statement """
+    out: List[Tuple[ast.AST, str, ast.AST]] = []
+    for expr, truth in path_facts(cfg, node, fresh_only=fresh_only):
+        if within is not None:
+            cur, inside = expr, False
+            while cur is not None:
+                if cur is within:
+                    inside = True
+                    break
+                cur = getattr(cur, "_parent", None)
+            if not inside:
+                continue
+        anchor = expr if hasattr(expr, "_parent") else node
+        cmp_ = effective_compare(inline_reaching(cfg, anchor, expr, keep=keep), truth)
+        if cmp_ is not None:
+            out.append(cmp_)
+    return out
+
+
+def same_operands(call: ast.AST, name: str, operands: List[str]) -> bool:
+    """ `call` is name(a, b) / name([a, b]) with exactly the given operand texts in any order """
+    if not (isinstance(call, ast.Call) and isinstance(call.func, ast.Name) and call.func.id == name and not call.keywords):
+        return False
+    args = call.args
+    if len(args) == 1 and isinstance(args[0], (ast.List, ast.Tuple, ast.Set)):
+        args = args[0].elts
+    return sorted(txt(a) for a in args) == sorted(operands)
